@@ -71,6 +71,12 @@ func (e *Engine) verifyFunction(fc *FuncContract) *FnResult {
 	for i, a := range args {
 		c.entryArgs[i] = a
 	}
+	if fn.Name() == "init" && fn.Pkg != nil && fn.Parent() == nil {
+		// the package initialiser is analysed for its first (only effective) execution
+		if g, ok := fn.Pkg.Members["init$guard"].(*ssa.Global); ok {
+			c.storeGlobal(s, g, Sc{T: False})
+		}
+	}
 	fr := c.pushFrame(s, fn, args, binds)
 	c.collectWitness(s, fn, args)
 	env := c.fnEnv(s, fn, fr, args)
@@ -171,12 +177,16 @@ func (c *Ctx) checkReturn(rp retPath, fc *FuncContract, fn *ssa.Function, args [
 	fr := s.frames[0]
 	env := c.fnEnv(s, fn, fr, args)
 	env.atlock = s.atLock
+	env.trace = s.trace
 	sig := fn.Signature.Results()
 	for i, v := range rp.vals {
 		env.results = append(env.results, tv{v, sig.At(i).Type()})
 	}
 	if len(fc.GhostAtExit) > 0 {
-		c.applyGhost(s, fc.GhostAtExit)
+		genv := c.fnEnv(s, fn, fr, args)
+		genv.atlock = s.atLock
+		genv.results = env.results
+		c.applyGhostEnv(s, genv, fc.GhostAtExit)
 	}
 	for i, en := range fc.Ensures {
 		g := env.evalBool(en.Expr)
@@ -269,6 +279,7 @@ func (c *Ctx) checkLoopTraces(s *State, header *ssa.BasicBlock) {
 		start = len(s.trace)
 	}
 	env := c.loopEnv(s)
+	env.trace = s.trace[start:]
 	c.checkTraces(s, env, fc, s.trace[start:], ord)
 }
 
@@ -432,18 +443,35 @@ func (c *Ctx) bindEvent(env *Env, ev Event) {
 		return nil
 	}
 	if ev.Recv != nil {
-		env.vars["$recv"] = tv{ev.Recv, typeOf(ev.Recv)}
+		t := ev.RecvT
+		if t == nil {
+			t = typeOf(ev.Recv)
+		}
+		env.vars["$recv"] = tv{ev.Recv, t}
 	}
 	for i, a := range ev.Args {
-		env.vars[fmt.Sprintf("$arg%d", i)] = tv{a, typeOf(a)}
+		t := typeOf(a)
+		if i < len(ev.ArgT) && ev.ArgT[i] != nil {
+			t = ev.ArgT[i]
+		}
+		env.vars[fmt.Sprintf("$arg%d", i)] = tv{a, t}
 	}
 	if ev.Res != nil {
 		if tu, ok := ev.Res.(Tu); ok {
+			rt, _ := ev.ResT.(*types.Tuple)
 			for i, r := range tu.E {
-				env.vars[fmt.Sprintf("$res%d", i)] = tv{r, typeOf(r)}
+				t := typeOf(r)
+				if rt != nil && i < rt.Len() {
+					t = rt.At(i).Type()
+				}
+				env.vars[fmt.Sprintf("$res%d", i)] = tv{r, t}
 			}
 		} else {
-			env.vars["$res0"] = tv{ev.Res, typeOf(ev.Res)}
+			t := ev.ResT
+			if t == nil {
+				t = typeOf(ev.Res)
+			}
+			env.vars["$res0"] = tv{ev.Res, t}
 		}
 	}
 }
